@@ -227,6 +227,31 @@ def rel_label(a, pick):
     return a, b
 
 
+# distinct cp1252 strings that a normalising / folding / trimming comparison would identify (compatibility forms, typographic
+# look-alikes, case folds, white space): two blocks that differ in exactly such a pair are still different blocks
+CONFUSABLE = [("Plataforma n\u00ba2", "Plataforma no2"), ("a\u00a0b", "a b"), ("x\u00b2", "x2"), ("x\u00b9", "x1"), ("x\u00b3", "x3"), ("wait\u2026", "wait..."),
+              ("BTS\u2122", "BTSTM"), ("1\u00aa", "1a"), ("stra\u00dfe", "strasse"), ("STRASSE", "stra\u00dfe"), ("c\u0153ur", "coeur"), ("\u00c6on", "AEon"),
+              ("it\u2019s", "it's"), ("\u201cq\u201d", '"q"'), ("a\u2013b", "a-b"), ("a\u2014b", "a-b"), ("a\u00adb", "ab"), ("a\u00b7b", "a.b"), ("tab\there", "tab here"),
+              ("line\nbreak", "line break"), ("cr\r\nlf", "cr\nlf"), ("two  spaces", "two spaces"), (" lead", "lead"), ("trail ", "trail"), ("\u00b5V", "uV"),
+              ("\u00bd", "1/2"), ("\u00e9", "e"), ("\u00c9", "\u00e9"), ("\u0160", "S"), ("\u017d", "Z"), ("0", "O"), ("l", "1"), ("a", "A"), ("", " ")]
+
+
+def rel_label_confusable(a, pick):
+    its = codec.items(a) if a["t"] != "data2D" else None
+    if not its:
+        return None
+    x, y = CONFUSABLE[pick % len(CONFUSABLE)]
+    if (pick // len(CONFUSABLE)) % 2:
+        x, y = y, x
+    a, b = copy.deepcopy(a), copy.deepcopy(a)
+    i = (pick // 3) % len(its)
+    f = ("lens", "type", "name")[(pick // 7) % 3] if a["t"] == "optical" else "label"
+    if f not in codec.items(a)[i]:
+        return None
+    codec.items(a)[i][f], codec.items(b)[i][f] = x, y
+    return a, b
+
+
 def rel_channel(a, pick):
     t = a["t"]
     b = copy.deepcopy(a)
@@ -493,7 +518,7 @@ def rel_event_count(a, pick):
 
 
 EQUAL_RELS = ("same", "rebuilt", "roundtrip")
-DIFF_RELS = {"make-duplicate": rel_duplicate, "swap-items": rel_swap, "d3-format": rel_d3_format, "append-item": rel_append, "drop-last": rel_drop_last, "drop-middle": rel_drop_middle, "label": rel_label,
+DIFF_RELS = {"make-duplicate": rel_duplicate, "swap-items": rel_swap, "d3-format": rel_d3_format, "append-item": rel_append, "drop-last": rel_drop_last, "drop-middle": rel_drop_middle, "label": rel_label, "label-confusable": rel_label_confusable,
              "channel": rel_channel, "sample": rel_sample, "viewport": rel_viewport, "camera-index": rel_index, "gap": rel_gap,
              "link": rel_link, "event-type": rel_event_type, "event-count": rel_event_count}
 for _f in CAM_FIELDS:
@@ -515,7 +540,7 @@ def relations_for(t):
     if t != "optical":
         rels.append("sample")
     if t in ("data3D", "emg", "force3D", "platCal", "optical", "events"):
-        rels.append("label")
+        rels += ["label", "label-confusable"]
     if t in ("emg", "platData", "platCal", "data2D", "calib"):
         rels.append("channel")
     if t in specs.RLE_TYPES:
@@ -603,7 +628,7 @@ def make_run(t, rel):
 
 
 def make_strategy(t, rel):
-    need = 3 if rel == "drop-middle" else 2 if rel in ("swap-items", "make-duplicate") else 1 if rel in ("drop-last", "label", "channel", "sample", "viewport", "camera-index", "gap", "event-type", "event-count") or rel.startswith(("camera:", "platform:")) else 0
+    need = 3 if rel == "drop-middle" else 2 if rel in ("swap-items", "make-duplicate") else 1 if rel in ("drop-last", "label", "label-confusable", "channel", "sample", "viewport", "camera-index", "gap", "event-type", "event-count") or rel.startswith(("camera:", "platform:")) else 0
 
     def strat(tier):
         base = specs.SPEC[t](tier, need)
@@ -697,7 +722,7 @@ def run_files(ctx, case):
         else:
             k = pick % len(a_blocks)
             t = a_blocks[k]["spec"]["t"]
-            cands = [r for r in ("append-item", "scalar:frequency", "scalar:startTime", "sample", "label") if r in relations_for(t)]
+            cands = [r for r in ("append-item", "scalar:frequency", "scalar:startTime", "sample", "label", "label-confusable") if r in relations_for(t)]
             pair = None
             for r in cands[pick // 3 % len(cands):] + cands:
                 pair = DIFF_RELS[r](_clamp_frames(copy.deepcopy(a_blocks[k]["spec"])), pick)
@@ -731,6 +756,11 @@ def run_files(ctx, case):
         pa, pb = os.path.join(d, "a.tdf"), os.path.join(d, "b.tdf")
         open(pa, "wb").write(_image(na, va, a_blocks))
         open(pb, "wb").write(_image(nb, vb, b_blocks))
+        if pick % 3 != 2:
+            # same time stamps on both files (what cp -p, rsync -t or unpacking an archive leave behind): content decides, not the stat record
+            st_a = os.stat(pa)
+            os.utime(pb, ns=(st_a.st_atime_ns, st_a.st_mtime_ns))
+            ctx.label("same-mtime" + ("+same-size" if os.path.getsize(pa) == os.path.getsize(pb) else ""))
         for order, (x, y) in (("a==b", (pa, pb)), ("b==a", (pb, pa))):
             def cmp():
                 with Tdf(x) as tx:
